@@ -23,7 +23,7 @@ import c16_objmodel as om
 INST = os.path.join(HERE, "c18_inst.C")
 LIB_DIRS = ["src/kernel/gmp++", "src/kernel/integer", "src/kernel/rational", "src/kernel/memory", "src/kernel/system", "src/kernel/bstruct"]
 SKIP_C = {"gmp++_int.C"}              # only #includes the other gmp++_int_*.C files
-VERSION = "c18-values-v12"
+VERSION = "c18-values-v13"
 
 # ---- what a write to a static may be.  Anything that is not matched here is reported (site = the function, klass = the statics).
 # (regular expression on "Class::function", set of statics or None = any, category, reason)
@@ -196,6 +196,49 @@ def template_patterns(objs):
     return pat_fn, pat_cls
 
 
+# ---- accesses to std::atomic objects (shared reference counts): WHICH operation, in evaluation order
+ATOMIC_RMW = {"fetch_add", "fetch_sub", "fetch_and", "fetch_or", "fetch_xor", "exchange", "compare_exchange_weak", "compare_exchange_strong",
+              "operator++", "operator--", "operator+=", "operator-=", "operator&=", "operator|=", "operator^="}
+
+
+def atomic_accesses(fnnode, fi):
+    """[(kind, counter)] for the body of one function, post-order (= evaluation order of `a.store(a.load() + 1)` and `a = a + 1`):
+    kind 'rmw'   one atomic read-modify-write (fetch_add / fetch_sub / ++ / -- / += / exchange / compare_exchange ...)
+         'load'  load() or the implicit conversion to the value type
+         'store' store() or operator=  -- an update made of a load and a store is NOT one atomic operation"""
+    out = []
+
+    def obj_is_atomic(e):
+        return e is not None and "atomic" in om.qt(e)
+
+    def cname(e):
+        p = om.access_path(e, fi) if e is not None else None
+        if p is None:
+            return "?"
+        return (p.members[0] if p.members else p.name) or "?"
+
+    def rec(n):
+        for c in om.kids(n):
+            rec(c)
+        k = n.get("kind")
+        ks = om.kids(n)
+        if k == "CXXMemberCallExpr" and ks and ks[0].get("kind") == "MemberExpr":
+            obj = om.kids(ks[0])[0] if om.kids(ks[0]) else None
+            nm = ks[0].get("name") or ""
+            if obj_is_atomic(obj):
+                kind = "rmw" if nm in ATOMIC_RMW else "store" if nm in ("store", "operator=") else "load" if (nm == "load" or nm.startswith("operator ")) else None
+                if kind:
+                    out.append((kind, cname(obj)))
+        elif k == "CXXOperatorCallExpr" and len(ks) >= 2:
+            nm = om._callee_name(ks[0]) or ""
+            if obj_is_atomic(ks[1]) and (nm in ATOMIC_RMW or nm == "operator="):
+                out.append(("rmw" if nm in ATOMIC_RMW else "store", cname(ks[1])))
+    for c in om.kids(fnnode):
+        if c.get("kind") in ("CompoundStmt", "CXXCtorInitializer"):
+            rec(c)
+    return out
+
+
 def base_name(fn):
     while re.search(r"<[^<>]*>", fn):
         fn = re.sub(r"<[^<>]*>", "", fn)
@@ -326,6 +369,11 @@ def build(log=None):
         fn = (own + "::" if own else "") + (b.get("name") or "?")
         ops.append({"fn": fn, "site": (own + "::" if own else "") + sig, "kind": b.get("kind"), "effects": [list(t) for t in eff],
                     "via": {"%s:%s" % t: v for t, v in via.items()}})
+        acc = atomic_accesses(b, an.info(b))
+        if acc:
+            # a constructor other than the copy constructor works on an object nobody shares yet
+            fresh = b.get("kind") == "CXXConstructorDecl" and not om.is_copy_param(idx, b, (idx.cls_of.get(b["id"]) or {}).get("name") or "")
+            ops[-1]["atomic"] = {"accesses": [list(a) for a in acc], "fresh_object": bool(fresh)}
     # unique, stable names
     ops.sort(key=lambda o: o["site"])
     cnt = {}
@@ -388,6 +436,15 @@ def decide(res):
     return off, doc
 
 
+def atomic_sites(res):
+    return [o for o in res["ops"] if o.get("atomic")]
+
+
+def atomic_offenders(res):
+    """functions that update a shared atomic counter with a store (load + store, `x = x + 1`, or a blind store) instead of one RMW"""
+    return [o for o in atomic_sites(res) if not o["atomic"]["fresh_object"] and any(a[0] == "store" for a in o["atomic"]["accesses"])]
+
+
 def emit_coq(res):
     def effstr(t):
         return "%s %s%s" % (t[0], om.coq_str(t[1]), " ViaCast" if t[0] == "WOwn" else "")
@@ -397,7 +454,7 @@ def emit_coq(res):
              "   current headers of the repository.  Do not edit: rewritten by every run of checks/C18.py.",
              "   One entry per function body in the dump (Integer, Rational, RecInt, integer domains, allocator, start-up, every instantiated ring /",
              "   field / polynomial domain): the statics it touches and, for const members, the own members written through mutable / casts / pointers. *)",
-             "From Coq Require Import String List.", "From C16 Require Import ObjModel RaceFreeValues.", "Import ListNotations.", "Local Open Scope string_scope.", "",
+             "From Coq Require Import String List.", "From C16 Require Import ObjModel RaceFreeValues RaceFreeAtomic.", "Import ListNotations.", "Local Open Scope string_scope.", "",
              "Definition value_ops : list vop := ["]
     ents = []
     for o in res["ops"]:
@@ -424,6 +481,19 @@ def emit_coq(res):
     lines.append("  forall n o, find_vop value_ops n = Some o -> vo_documented o = false -> accepted value_ops n = true.")
     lines.append("Lemma source_operations_accepted : SourceOperationsAccepted_stmt.")
     lines.append("Proof. exact (fun n o => offenders_nil_accepted value_ops n o decide_values_offenders). Qed.")
+    lines.append("")
+    lines.append("(* every function that touches a std::atomic (the shared reference counts): the operations, in evaluation order.  The premise of")
+    lines.append("   atomic_counter -- each update is ONE atomic read-modify-write -- read from the source: no update is a store *)")
+    ak = {"rmw": "ARmw", "load": "ALoad", "store": "AStore"}
+    lines.append("Definition atomic_sites : list asite := " + om.coq_list(
+        ["{| as_name := %s; as_fresh := %s; as_accesses := %s |}" % (om.coq_str(o["uid"]), "true" if o["atomic"]["fresh_object"] else "false",
+                                                                       om.coq_list([ak[a[0]] for a in o["atomic"]["accesses"]])) for o in atomic_sites(res)]).replace("; {|", ";\n   {|") + ".")
+    lines.append("Definition Decide_atomic_stmt : Prop := atomic_split_updates atomic_sites = %s." % om.coq_list([om.coq_str(o["uid"]) for o in atomic_offenders(res)]))
+    lines.append("Lemma decide_atomic : Decide_atomic_stmt.")
+    lines.append("Proof. vm_compute. reflexivity. Qed.")
+    lines.append("Definition SourceAtomicUpdatesSingleRmw_stmt : Prop := forall s, In s atomic_sites -> as_fresh s = false -> ~ In AStore (as_accesses s).")
+    lines.append("Lemma source_atomic_updates_single_rmw : SourceAtomicUpdatesSingleRmw_stmt.")
+    lines.append("Proof. exact (no_split_updates_no_store atomic_sites decide_atomic). Qed.")
     return "\n".join(lines) + "\n"
 
 
@@ -447,5 +517,9 @@ if __name__ == "__main__":
                 rd.setdefault("%s %s" % tuple(t), []).append(o["uid"])
     for k, v in sorted(rd.items()):
         print("  %-28s %4d ops e.g. %s" % (k, len(v), v[0][:90]))
+    print("atomic sites:")
+    for o in atomic_sites(res):
+        print("  ", o["uid"], o["atomic"])
+    print("atomic offenders:", [o["uid"] for o in atomic_offenders(res)])
     if len(sys.argv) > 1:
         open(sys.argv[1], "w").write(emit_coq(res))
